@@ -175,5 +175,20 @@ theorem steps_of_runCfg {g : Grammar T N} {A : Auto T N} :
     | err => rw [hstep] at h; cases h; exact ⟨.refl _, hstep⟩
     | panic => rw [hstep] at h; cases h; exact ⟨.refl _, hstep⟩
 
+/-- the loop never returns a continuing step -/
+theorem runCfg_ne_cont {g : Grammar T N} {A : Auto T N} :
+    ∀ fuel (c : Cfg T P) r cf, runCfg g A fuel c = some (r, cf) → ∀ c', r ≠ .cont c' := by
+  intro fuel c r cf h c' e
+  subst e
+  induction fuel generalizing c with
+  | zero => simp [runCfg] at h
+  | succ k ih =>
+    simp only [runCfg] at h
+    cases hstep : step g A c with
+    | cont c1 => rw [hstep] at h; exact ih c1 h
+    | ok t => rw [hstep] at h; cases h
+    | err => rw [hstep] at h; cases h
+    | panic => rw [hstep] at h; cases h
+
 end LR
 end KikiVerif
